@@ -277,8 +277,11 @@ func (*c10Engine) Generate(seed uint64, tier string) *Case {
 	// overrun the stack, which corrupts memory) are drawn in 3% of the cases only, and the
 	// worker process is recycled after each of them so that a corrupted heap cannot taint
 	// the cases that would follow in the same process
-	p.InitStack = 64 << uint(r.Intn(7)) // 64 .. 4096
+	p.InitStack = 128 << uint(r.Intn(6)) // 128 .. 4096
 	p.InitStack += r.Intn(p.InitStack)
+	if r.Chance(0.06) {
+		p.InitStack = r.Range(64, 127)
+	}
 	if r.Chance(0.03) {
 		p.InitStack = r.Range(16, 63)
 	}
@@ -369,7 +372,9 @@ func (*c10Engine) Execute(t *testing.T, c *Case) *Verdict {
 	v.Hash = hashStrings(string(c.Params), hashDecisions(got.res.Decisions))
 	v.Nontrivial = true
 	v.Extra = map[string]int64{"forced_reallocations": int64(got.grows), "init_stack_below_default": b2i(p.InitStack < defInitStack)}
-	if p.InitStack < 64 {
+	if p.InitStack < 128 {
+		// below 64 slots frames are known to overrun the stack; up to about twice that a large
+		// frame still can: never share a process with the cases that follow
 		v.Extra["recycle_worker"] = 1
 	}
 	for _, f := range p.Fragments {
